@@ -110,7 +110,7 @@ def run(name, props, extra):
         if rc:
             print("patch does not apply:", out)
             return 2
-        env = dict(os.environ, VERIF_REPO=scratch)
+        env = dict(os.environ, VERIF_REPO=scratch, VERIF_REPLAY_DIR=os.path.join(scratch, "replays"))
         for prop in props:
             rc, out = sh([os.path.join(VERIF, "check"), prop, "--no-evidence"] + extra, cwd=VERIF, env=env, timeout=3600)
             caught = rc == 1 and f"VIOLATION property={prop}" in out
